@@ -5,7 +5,10 @@ PATCH=$1; shift
 cd /repo || exit 2
 if ! git diff --quiet; then echo "trymutant: /repo is dirty" >&2; exit 2; fi
 git apply "$PATCH" || { echo "trymutant: patch does not apply" >&2; exit 2; }
-trap 'git -C /repo checkout -- . ; git -C /repo clean -fdq internal pkg cmd 2>/dev/null' EXIT
+# evidence and replay files written while a seeded change is applied are not evidence about /repo: keep them out of /verif
+SAVE=$(mktemp -d /tmp/trymutant.XXXXXX)
+cp -a /verif/evidence "$SAVE/evidence"; mkdir -p /verif/replays; ls /verif/replays > "$SAVE/replays.before"
+trap 'git -C /repo checkout -- . ; git -C /repo clean -fdq internal pkg cmd 2>/dev/null; rm -rf /verif/evidence; mv "$SAVE/evidence" /verif/evidence; for f in $(ls /verif/replays); do grep -qx "$f" "$SAVE/replays.before" || { mkdir -p /tmp/mutant-replays; mv "/verif/replays/$f" /tmp/mutant-replays/ 2>/dev/null; }; done; rm -rf "$SAVE"' EXIT
 cd /verif
 for P in "$@"; do
   ARGS="--tier ${TIER:-quick}"
